@@ -577,7 +577,10 @@ impl Template {
                 }
                 (Width, FirstStyle | Literal) if !buf.is_empty() => {
                     if let Some(TemplatePart::Placeholder { width, .. }) = parts.last_mut() {
-                        *width = Some(buf.parse().unwrap());
+                        *width = Some(
+                            buf.parse()
+                                .map_err(|_| TemplateError { next: c, state })?,
+                        );
                         buf.clear();
                     }
                 }
